@@ -4,7 +4,7 @@ on_trial_result queues (source trial, new config) on _trial_decisions_stack when
 replaced; suggest() pops the entry later.  In between the SOURCE may itself be stopped (it reaches max_t, or it falls
 into the lower quantile): with delete_checkpoints=True the back-end deletes its checkpoint on stop_trial, and the next
 suggest() returns start_suggestion(config, checkpoint_trial_id=<source>) for a checkpoint that no longer exists.  The
-local back-end then silently starts the clone from scratch.  The window is one poll wide with asynchronous scheduling
+LocalBackend.copy_checkpoint then raises FileNotFoundError (shutil.copytree), which aborts the tuning run.  The window is one poll wide with asynchronous scheduling
 (results of the source later in the same batch) and arbitrarily wide with asynchronous_scheduling=False.
 
 Stand-alone: /venv/bin/python findings/F08_repro.py   (exit 1 = defect present)"""
